@@ -98,7 +98,7 @@ def rule_h_agree(ctx):
         own = ctx.facts.closure_parent(b)
         if "self_ty" in own.raw and T[own.raw["self_ty"]].get("adt") in (S, ctx.roles.O):
             continue
-        if own.path.startswith("griddle::raw::"):
+        if own.path.startswith(ctx.core_module() + "::"):
             continue
         for c in ctx.calls(b):
             lc = c.local_callee()
